@@ -465,24 +465,32 @@ Definition show_token (t : token) : string :=
 
 Definition token_eqb (a b : token) : bool := String.eqb (show_token a) (show_token b).
 
-(* run-length encoding of f over lo, lo+1, ..., lo+n-1 as "first..last:token" runs *)
-Fixpoint rle_from (n : nat) (x : Z) (f : Z -> token) (cur : option (Z * token)) : list (Z * Z * token) :=
-  match n with
-  | O => match cur with Some (s, t) => [(s, x - 1, t)] | None => [] end
-  | S m =>
+(* run-length encoding of f over lo, lo+1, ..., lo+n-1 as "first..last:token" runs.  Iterated with N.iter
+   (binary recursion on the count) so that 2^16 values need no deep recursion and no large nat. *)
+Definition rle_state : Type := Z * option (Z * token) * list (Z * Z * token).
+
+Definition rle_step (f : Z -> token) (st : rle_state) : rle_state :=
+  match st with
+  | (x, cur, acc) =>
     let t := f x in
     match cur with
-    | None => rle_from m (x + 1) f (Some (x, t))
-    | Some (s, t0) => if token_eqb t0 t then rle_from m (x + 1) f cur
-                      else (s, x - 1, t0) :: rle_from m (x + 1) f (Some (x, t))
+    | None => (x + 1, Some (x, t), acc)
+    | Some (s, t0) => if token_eqb t0 t then (x + 1, cur, acc)
+                      else (x + 1, Some (x, t), (s, x - 1, t0) :: acc)
     end
+  end.
+
+Definition rle_runs (lo n : Z) (f : Z -> token) : list (Z * Z * token) :=
+  match N.iter (Z.to_N n) (rle_step f) (lo, None, []) with
+  | (x, Some (s, t), acc) => rev ((s, x - 1, t) :: acc)
+  | (_, None, acc) => rev acc
   end.
 
 Definition show_run (r : Z * Z * token) : string :=
   match r with (s, e, t) => show_Z s ++ ".." ++ show_Z e ++ ":" ++ show_token t end.
 
 Definition rle (lo : Z) (n : Z) (f : Z -> token) : string :=
-  String.concat "," (map show_run (rle_from (Z.to_nat n) lo f None)).
+  String.concat "," (map show_run (rle_runs lo n f)).
 
 (* all raw values of the enum's base type that a field of width w can deliver *)
 Definition lo_of (signed_full : bool) (w : Z) : Z := if signed_full then - 2 ^ (w - 1) else 0.
